@@ -238,6 +238,8 @@ class Heap:
         self.n = 0
         self.failed_asserts = []
         self.field_alias = field_alias or {}
+        # (a scenario that keeps the parent link of its objects as a plain field keeps the object there, not a weak reference to it)
+        self.plain_weak_fields = {'parent_element'} if (field_alias or {}).get('_parent_element') == 'parent_element' else set()
         self.depth = 0
 
     def alloc(self, cls, fields=None, name=None):
@@ -432,7 +434,10 @@ class Heap:
     def setattr(self, ref, attr, value, cur_cls):
         o = self.objs[ref.name]
         self.touch(ref.name)
-        o[self.fld(attr, cur_cls)] = value
+        f_ = self.fld(attr, cur_cls)
+        if f_ in getattr(self, 'plain_weak_fields', ()) and isinstance(value, tuple) and len(value) == 2 and value[0] == 'weak':
+            value = value[1]          # (a scenario keeps this link as the object itself: a weak reference stored there is the object)
+        o[f_] = value
 
     # -- dicts
     @staticmethod
@@ -3003,6 +3008,7 @@ class Interp:
             return None
         if isinstance(st, ast.While):
             n = 0
+            broke = False
             while self.truth(self.ev(st.test, env, cls)):
                 n += 1
                 if n > 64:
@@ -3010,10 +3016,13 @@ class Interp:
                 r = self.run(st.body, env, cls)
                 if r is not None:
                     if r[0] == 'break':
+                        broke = True
                         break
                     if r[0] == 'continue':
                         continue
                     return r
+            if not broke and st.orelse:
+                return self.run(st.orelse, env, cls)          # while ... else: the test became false (no break)
             return None
         if isinstance(st, ast.FunctionDef):
             env[st.name] = Closure(st, env, None, cls)      # reads the enclosing variables at call time
